@@ -5,6 +5,8 @@ from __future__ import annotations
 def fp_expr(e):
     from pydiverse.transform._internal.tree import col_expr as CE
 
+    if isinstance(e, list | tuple):
+        return ("list", tuple(fp_expr(x) for x in e))
     if isinstance(e, CE.Order):
         return ("Order", fp_expr(e.order_by), e.descending, e.nulls_last)
     if isinstance(e, CE.Col):
